@@ -182,7 +182,7 @@ def scc_groups(prog, entries):
     return sorted(groups)
 
 
-def bypassed_by_bound(prog, r):
+def bypassed_by_bound(prog, r, given=()):
     """Known finding: binding ALL consumed outputs of a node bypasses it at validation time, yet
     graph.inputs keeps listing that node's own inputs as required."""
     bound = {b for b, _ in prog["bound"]}
@@ -190,7 +190,8 @@ def bypassed_by_bound(prog, r):
     byp = set()
     for n in prog["nodes"]:
         co = set(n["outputs"]) & consumed
-        if co and co <= bound:
+        # all consumed outputs are injected, at least one of them by a BINDING (the rest by the caller's values)
+        if co and co <= (bound | set(given)) and co & bound:
             byp.add(n["name"])
     users = {n["name"] for n in prog["nodes"] if r in n["inputs"]}
     return bool(users) and users <= byp
@@ -367,7 +368,7 @@ def run(tier, seed):
             n_rej += 1
             if o["outcome"] == "accepted":
                 k = "missing-required-input-accepted"
-                if bypassed_by_bound(prog, what.split(":", 1)[1]):
+                if bypassed_by_bound(prog, what.split(":", 1)[1], given):
                     k = "required-input-of-node-bypassed-by-bound-output"
                 ctx.violation(k, wit, f"{what}: run was accepted (status {o.get('status')})")
             elif mix:
